@@ -194,11 +194,15 @@ Defined(form, x, p) ==
 
 (* The author's answer as a function of the sampled variable x:
      [form |-> "id"]              the answer is the variable itself ('x')
+     [form |-> "idf"]             the same sampled value, but it reaches the formulas through a user function that is
+                                  drawn anew at every sample (f_i(t) = v_i * t, answer 'f(1)'): neither the answer
+                                  nor the student's formula needs to mention a variable
      [form |-> "const", k |-> v]  the answer is a constant expression (a number, 2*pi/pi, ...): the same value v at
                                   every sample, while the student's formula may still use the variable           *)
 IdAns == [form |-> "id", k |-> Real(Zero), sp |-> "lit"]
 ConstAns(v, sp) == [form |-> "const", k |-> v, sp |-> sp]
-Expected(ans, x) == IF ans.form = "id" THEN x ELSE ans.k
+IdfAns == [form |-> "idf", k |-> Real(Zero), sp |-> "lit"]
+Expected(ans, x) == IF ans.form \in {"id", "idf"} THEN x ELSE ans.k
 DefinedAns(ans, form, x, p) == Defined(form, x, p) /\ Student(form, x, p).shape = Expected(ans, x).shape
                                /\ (ans.form = "const" => ~IsInf(x))
 
@@ -207,7 +211,7 @@ DefinedAns(ans, form, x, p) == Defined(form, x, p) /\ Student(form, x, p).shape 
    numbers and arrays, whose squared norms would otherwise leave TLC's integer range. *)
 MarginMulPct(x, eps, tol) == IF Norm2(x)[1] = 0 THEN "edge0" ELSE Margin(Real(One), Real(QAdd(One, eps)), tol)
 SampleMargin(ans, form, x, p, tol) ==
-  IF ans.form = "id" /\ form = "mul" /\ tol.kind = "pct" /\ ~IsInf(x) /\ ~IsRealScalar(x)
+  IF ans.form \in {"id", "idf"} /\ form = "mul" /\ tol.kind = "pct" /\ ~IsInf(x) /\ ~IsRealScalar(x)
   THEN MarginMulPct(x, RealPart(p), tol)
   ELSE Margin(Expected(ans, x), Student(form, x, p), tol)
 
@@ -309,6 +313,9 @@ Rev(sq) == [i \in 1..Len(sq) |-> sq[Len(sq) + 1 - i]]
 LawOrderIrrelevant(marg, n, failable, credit) ==
   LET a == JudgeM(marg, n, failable, credit)  b == JudgeM(Rev(marg), n, failable, credit)
   IN a.allowed = b.allowed /\ a.fails = b.fails /\ a.grades = b.grades
+\* how the sampled value is carried (a sampled variable or a sampled function) is irrelevant to the verdict
+LawCarrierIrrelevant(xs, form, ps, tol, n, failable, credit) ==
+  JudgeAns(IdfAns, xs, form, ps, tol, n, failable, credit) = JudgeAns(IdAns, xs, form, ps, tol, n, failable, credit)
 \* the scale-invariance shortcut classifies like the general definition (where the general one is computable)
 LawMulShortcut(x, eps, tol) == tol.kind = "pct" /\ ~IsInf(x)
                                  => LET a == MarginMulPct(x, eps, tol)  b == Margin(x, VScale(QAdd(One, eps), x), tol)
